@@ -301,6 +301,8 @@ def main():
     ntwo = len(F.f_two_segments())
     mem_pairs = F.f_mem_mutant_pairs(deltas=(0, 1, 32), length=2)
     mem_pairs += F.f_mem_move_pairs(deltas=(0, 8, 40), length=3, n_stores=(1, 2))
+    # a store moved across a hash of an overlapping / disjoint range (the checker's KECCAK branch of the dependency comparison)
+    mem_pairs += F.f_mem_move_pairs(deltas=(0, 8, 40), length=3, load_ops=("KECCAK256",), n_stores=(1, 2))[:: (2 if tier == "quick" else 1)]
     if tier == "thorough":
         mem_pairs += F.f_mem_mutant_pairs(deltas=(0, 16), ops=("MSTORE", "MSTORE8", "SSTORE"), length=3)
         mem_pairs += F.f_mem_move_pairs(deltas=(0, 8, 16, 40), length=4)
